@@ -193,6 +193,20 @@ CLAIMS["C09"] = dict(
     design_ref="DESIGN.md section 4, C09",
     technique="static analysis: abstract interpretation on generic symbolic tensors with path splitting, role analysis of root-finder arguments, slot agreement, option dispatch pairing, frame typing")
 
+CLAIMS["C11"] = dict(
+    category="other",
+    text=("Decides for both viscoelastic modules, by abstract interpretation on generic symbolic tensors with exact identities: "
+          "(D1) every branch's viscous strain increment is identically traceless and its new distortion is expm(own increment) @ "
+          "own old distortion with the trial strain taken from the own old distortion, frames consistent; (D2) the dissipation "
+          "potential is G*tau*dev(D):dev(D) and the reported dissipated energy is the sum over branches of "
+          "G*tau*(dt/(tau+dt))^2/dt*|dev E|^2, a sum of positive multiples of squares; (D3) the update factor is dt/(tau+dt) "
+          "(0 at dt=0, limit 1), the energy is W_eq + sum_b G_b[(1-f_b)^2 + tau_b f_b^2/dt]|dev E_b|^2, equals the instantaneous "
+          "value at dt=0 and tends to the equilibrium value as dt -> infinity (limits of rational functions); (D4) property index "
+          "constants, _make_properties order and the per-branch index map agree. Monotone relaxation over multi-step histories "
+          "is NOT decided."),
+    design_ref="DESIGN.md section 4, C11",
+    technique="static analysis: abstract interpretation on generic symbolic tensors, exact rational identities and limits, slot-table agreement, frame typing")
+
 NA = {}
 
 
